@@ -4,8 +4,10 @@
 EXTENDS Bus, TLC, Json, IOUtils
 
 Rec == ndJsonDeserialize(IOEnv.TRACE)
-VARIABLES l, a, srclen, skip
-vars == << l, a, srclen, skip >>
+VARIABLES l, a, srclen, skip,
+          lock,   \* this execution pulls all outputs in lock step (C07's bus clause applies)
+          hw      \* heap footprint (live bytes) at the end of the first lock-step round, -1 before
+vars == << l, a, srclen, skip, lock, hw >>
 Ev == Rec[l]
 Consume == l <= Len(Rec) /\ l' = l + 1
 
@@ -24,19 +26,33 @@ K == Ev.a.key
 Step == CASE Ev.ev = "send" -> [ret |-> [k |-> "unit"], a |-> ASend(a, K)]
           [] Ev.ev = "next" -> LET r == ANextFrame(a, K) IN [ret |-> [k |-> "val", v |-> SrcVal(r.frame)], a |-> r.a]
           [] Ev.ev = "drop" -> [ret |-> [k |-> "unit"], a |-> ADrop(a, K)]
+\* C07: the bus may allocate, but pulled in lock step its backlog holds at most one frame and its
+\* heap footprint stops growing after the first round
+LockOK == ~lock \/ (/\ Ev.o.backlog <= 1
+                    /\ (Ev.ev = "mark" => Ev.o.backlog = 0 /\ (hw >= 0 => Ev.o.live <= hw)))
+AcceptMark == Ev.ev = "mark" /\ Ev.r.k = "unit" /\ ObsOK(Ev.o, a)
 AcceptOp == /\ \/ Ev.ev = "send" /\ K \notin ALive(a)
                \/ Ev.ev \in {"next", "drop"} /\ K \in ALive(a)
             /\ Ev.r = Step.ret /\ ObsOK(Ev.o, Step.a)
 AcceptReset == Ev.r.k = "unit" /\ ObsOK(Ev.o, AInit)
 
 TReset == /\ Consume /\ Ev.ev = "reset" /\ srclen' = Ev.cfg.srclen
+          /\ lock' = ("lockstep" \in DOMAIN Ev.cfg) /\ hw' = -1
           /\ IF AcceptReset THEN a' = AInit /\ skip' = FALSE
              ELSE PrintT(<< "REJECT", l, Ev.ev >>) /\ skip' = TRUE /\ UNCHANGED a
-TOp == /\ Consume /\ Ev.ev # "reset" /\ ~skip
-       /\ IF AcceptOp THEN a' = Step.a /\ UNCHANGED << srclen, skip >>   \* the bus is exempt from the no-allocation rule
-          ELSE PrintT(<< "REJECT", l, Ev.ev >>) /\ skip' = TRUE /\ UNCHANGED << a, srclen >>
-TSkip == Consume /\ Ev.ev # "reset" /\ skip /\ UNCHANGED << a, srclen, skip >>
-TraceInit == l = 1 /\ a = AInit /\ srclen = -1 /\ skip = TRUE
+TOp == /\ Consume /\ Ev.ev # "reset" /\ ~skip /\ UNCHANGED lock
+       /\ IF Ev.ev = "mark"
+            THEN IF AcceptMark
+                   THEN /\ (IF LockOK THEN TRUE ELSE PrintT(<< "HEAP", l, Ev.ev >>))
+                        /\ hw' = IF hw < 0 THEN Ev.o.live ELSE hw
+                        /\ UNCHANGED << a, srclen, skip >>
+                   ELSE PrintT(<< "REJECT", l, Ev.ev >>) /\ skip' = TRUE /\ UNCHANGED << a, srclen, hw >>
+            ELSE IF AcceptOp
+                   THEN /\ a' = Step.a /\ (IF LockOK THEN TRUE ELSE PrintT(<< "HEAP", l, Ev.ev >>))
+                        /\ UNCHANGED << srclen, skip, hw >>   \* otherwise the bus is exempt from the no-allocation rule
+                   ELSE PrintT(<< "REJECT", l, Ev.ev >>) /\ skip' = TRUE /\ UNCHANGED << a, srclen, hw >>
+TSkip == Consume /\ Ev.ev # "reset" /\ skip /\ UNCHANGED << a, srclen, skip, lock, hw >>
+TraceInit == l = 1 /\ a = AInit /\ srclen = -1 /\ skip = TRUE /\ lock = FALSE /\ hw = -1
 TraceNext == TReset \/ TOp \/ TSkip
 TraceSpec == TraceInit /\ [][TraceNext]_vars
 AllConsumed == IF TLCGet("stats").diameter - 1 = Len(Rec) THEN TRUE
